@@ -8,6 +8,7 @@ conformance : every parse_sql call over the corpus is recorded twice -- the driv
               must be behaviours whose invariants hold at every recorded step.
 """
 import json
+import os
 import random
 
 from . import slycheck
@@ -36,11 +37,29 @@ def build_cases(ctx, n_stmts, muts, n_soups, n_gram=30):
         vocab = vocabulary(d, pick[:200])
         for s in soups(d, rng, n_soups, vocab):
             cases.append((s, d, 'soup'))
+    # one representative (or several) of every Unicode general category, in several positions: alone, in a statement,
+    # after a syntax error (the error callback drains the remaining tokens), inside quotes
+    import unicodedata
+    reps = {}
+    for cp in list(range(0, 0x3000)) + list(range(0xD7F0, 0xE010)) + list(range(0xFDD0, 0xFE10)) + list(range(0xFFF0, 0x10010)) + \
+            [0x1F600, 0x2FFFE, 0xE0001, 0xF0000, 0x10FFFF, 0x0378, 0x85, 0xA0, 0x2028, 0x2029, 0x200B, 0xFEFF, 0x202E]:
+        ch = chr(cp)
+        cat = unicodedata.category(ch)
+        named = bool(unicodedata.name(ch, ''))
+        lst = reps.setdefault((cat, named), [])
+        if len(lst) < 2:
+            lst.append(ch)
+    for d in DIALECTS:
+        for (cat, named), chs in sorted(reps.items()):
+            for ch in chs:
+                for tmpl in ('%s', 'select %s', 'select a %s from t', 'select a from t where %s = 1', 'select from %s',
+                             "select '%s'", 'select `%s` from t', 'select a from t limit %s', 'select 1; %s'):
+                    cases.append((tmpl % ch, d, 'unicode-%s' % cat))
     # sentences of the exported grammars (TLC GrammarGen) and token-level mutants of some of them
     from . import grammargen
     for d in DIALECTS:
-        gen = grammargen.texts(ctx, d, n_gram if d == 'mindsdb' else max(4, n_gram // 3))
-        for s, types, used in grammargen.cover_texts(ctx, d, variants=3):
+        gen = grammargen.texts(ctx, d, n_gram if d == 'mindsdb' else max(4, n_gram // 3), edge=True)
+        for s, types, used in grammargen.cover_texts(ctx, d, variants=3, edge=True):
             cases.append((s, d, 'production-cover'))
         for s, types, used in gen:
             cases.append((s, d, 'grammar-sentence'))
@@ -113,6 +132,55 @@ def run(ctx):
     from . import clauseorder
     n_clause = clauseorder.run(ctx, 5 if thorough else 4)
 
+    # --- termination on adversarial lexical input: repeated escape-like pairs in an unterminated literal / comment make a
+    # backtracking pattern explode (2^n).  Budget: 30 s for inputs a linear lexer handles in microseconds.
+    import subprocess
+    from .common import PY, REPO, VERIF
+    adv = []
+    for q in ("'", '"', '`'):
+        for unit in ('\\a', '\\\\', '\\' + q, q + q, 'a' + q + q):
+            adv.append('select ' + q + unit * 32)
+    adv += ['select /* ' + '*/*' * 40 + ' /', 'select -- ' + '-' * 3000, 'select ' + '(' * 60 + '1', 'select @`' + '\\a' * 32,
+            'select ' + '1e' * 40, 'select a' + ' -- c\n' * 200]
+    for d in DIALECTS:
+        code = ('import sys, json\nfrom mindsdb_sql import parse_sql\nfor s in json.loads(sys.stdin.read()):\n'
+                '    try:\n        parse_sql(s, %r)\n    except Exception:\n        pass\n    print("done", flush=True)\n' % d)
+        try:
+            pr = subprocess.run([PY, '-c', code], input=json.dumps(adv), env=dict(os.environ, PYTHONPATH='%s:%s' % (REPO, VERIF)),
+                                stdout=subprocess.PIPE, stderr=subprocess.PIPE, text=True, timeout=30)
+            ndone = pr.stdout.count('done')
+        except subprocess.TimeoutExpired as ex:
+            ndone = (ex.stdout or b'').decode().count('done') if isinstance(ex.stdout, bytes) else (ex.stdout or '').count('done')
+            ctx.violation('no-termination-within-budget:lexical:%s' % d,
+                          'parse_sql does not return within 30 s on a short adversarial input (exponential backtracking?)',
+                          {'sql': adv[min(ndone, len(adv) - 1)], 'dialect': d, 'kind': 'adversarial', 'final': 'timeout'})
+    ctx.cov['adversarial_lexical_inputs'] = len(adv) * len(DIALECTS)
+
+    # --- calls that overlap in time (schedules enumerated by TLC from Calls.tla, forced onto real threads with the
+    # driver hook as scheduling points): every call must still end in a tree / ParsingException
+    from . import c20
+    sch = c20.schedules_from_tlc(ctx, 'Calls_fresh.cfg', 'calls_fresh_c02')
+    rngc = random.Random(ctx.seed + 22)
+    stm = {'mindsdb': ['select a, b from t where c = 1', 'create model m from db (select 1) predict y', 'select * from (', 'insert into t values (1, 2)'],
+           'mysql': ['select a from t order by b', 'select 1 +', 'show tables', 'update t set a = 1 where b = 2'],
+           'sqlite': ['select a from t limit 1', 'select )', 'delete from t where a = 1', 'select a, b from t join u on t.a = u.a']}
+    n_inter = 0
+    for d in DIALECTS:
+        calls_ = [('parse', x, d) for x in stm[d]]
+        base_ = {c: c20.do_call(c) for c in calls_}
+        for i in range(len(calls_)):
+            pa = [calls_[i], calls_[(i + 1) % len(calls_)]]
+            for sc in rngc.sample(sch, min(len(sch), 5 if not thorough else 40)):
+                res, evs, st = c20.run_schedule(pa, sc, base_)
+                n_inter += 1
+                for c, got in zip(pa, res):
+                    if got is None or (got.startswith('exc:') and not got.startswith(('exc:ParsingException', 'exc:LexError'))):
+                        ctx.violation('internal:%s:interleaved-calls:%s' % ((got or 'exc:None').split(':')[1], d),
+                                      'a parse_sql call that overlaps in time with another one ends in an internal error',
+                                      {'sql': c[1], 'dialect': d, 'kind': 'interleaved', 'final': (got or 'None')[:200],
+                                       'other': pa[0][1] if c is pa[1] else pa[1][1], 'schedule': list(sc)})
+    ctx.cov['interleaved_call_pairs'] = n_inter
+
     # --- conformance half
     from .corpus import pmap
     cases = build_cases(ctx, 2000 if thorough else 220, 30 if thorough else 10, 6000 if thorough else 700,
@@ -121,7 +189,7 @@ def run(ctx):
     outcomes = {}
     n_valid = 0
     samples = []
-    BATCH = 30000      # bounds memory: driver traces of one batch are validated and dropped before the next is recorded
+    BATCH = 60000      # bounds memory: driver traces of one batch are validated and dropped before the next is recorded
     for b0 in range(0, len(all_cases), BATCH):
         cases = all_cases[b0:b0 + BATCH]
         bi = b0 // BATCH
